@@ -312,6 +312,17 @@ func replayCase(cs Case) string {
 	if cs.Part == "wide" {
 		return replayWide(cs)
 	}
+	if cs.Part == "appender" {
+		sets := optSets()
+		for si := range sets {
+			for e, en := range entryNames {
+				if sets[si].name == cs.OptSet && en == cs.Entry && cs.Index < badAppModes && cs.Value < len(badAppValues(cs.Index)) {
+					return checkValue(badAppValues(cs.Index)[cs.Value], &sets[si], e)
+				}
+			}
+		}
+		return ""
+	}
 	if cs.Part == "name-carrier" {
 		sets := optSets()
 		for si := range sets {
@@ -402,6 +413,7 @@ func Run(r *evid.Run) {
 	formatted(r)
 	wideUser(r)
 	nameCarriers(r)
+	appenders(r)
 	userOutputs(r)
 	c17.MarshalPolicing(r, "c02")
 	r.Outcomes(map[string]int64{"nil error: output validated": nOK.Load(), "error returned": nErr.Load()})
